@@ -380,4 +380,30 @@ def check_C07(ctx):
                   assumptions=TRUSTED)
 
 
-CHECKS = {"C11": check_C11, "C09": check_C09, "C16": check_C16, "C17": check_C17, "C15": check_C15, "C10": check_C10, "C12": check_C12, "C08": check_C08, "C13": check_C13, "C20": check_C20, "C05": check_C05, "C19": check_C19, "C06": check_C06, "C07": check_C07}
+# --------------------------------------------------------------------------- C14
+
+def check_C14(ctx):
+    cases, _ = ctx.tlc_mc("MC_C14", mc_cfg({}, ["Decided", "IncludeIsInlining", "NestedAndLoop", "FailuresFail", "IncluderEnvKept",
+                                                 "EmitCase"]))
+    ctx.validate(ctx.run_cases(cases))
+    return finish(ctx, rule="MC_C14: includer depth 0-2 x target in the same directory / below x argument as literal, variable, "
+                            "filtered expression, earlier-assigned variable x target on disk / cache only / both / missing x decoy "
+                            "file relative to the working directory; nested includes (disk and cache), include inside a loop, and "
+                            "six failure kinds; the render machine runs each (include = inlining with a copy of the variables) and "
+                            "the layouts are materialised in temporary directories (cache through ParseTemplateAndCache), "
+                            "rendered, and trace-validated", assumptions=TRUSTED)
+
+
+# --------------------------------------------------------------------------- C18
+
+def check_C18(ctx):
+    cases, _ = ctx.tlc_mc("MC_C18", mc_cfg({"Full": "FALSE" if ctx.quick else "TRUE"}, ["ReferenceDecides", "EmitCase"]))
+    ctx.validate(ctx.run_cases(cases))
+    return finish(ctx, rule="MC_C18: nine families of probe templates (numbers of every width printed/compared/in arithmetic, typed "
+                            "slices and fixed arrays, typed and ordered maps, []byte, pointers, Drops at every subset of the nodes of "
+                            "a nested environment) x the representation assignments the statement allows; each realisation is "
+                            "rendered by the implementation and must give the reference output (hence all agree)",
+                  assumptions=TRUSTED)
+
+
+CHECKS = {"C11": check_C11, "C09": check_C09, "C16": check_C16, "C17": check_C17, "C15": check_C15, "C10": check_C10, "C12": check_C12, "C08": check_C08, "C13": check_C13, "C20": check_C20, "C05": check_C05, "C19": check_C19, "C06": check_C06, "C07": check_C07, "C14": check_C14, "C18": check_C18}
